@@ -24,7 +24,7 @@ class DocInfo(object):
         self.pis = set()
 
 
-def gen_tree(r, size=30, ns=True, ids=True, ws=True, comments=True, astral=False, default_ns=None, max_depth=6):
+def gen_tree(r, size=30, ns=True, ids=True, ws=True, comments=True, astral=False, default_ns=None, max_depth=6, ws_heavy=False):
     """returns (xml text, DocInfo).  Prefixes in the TEXT may differ from the canonical ones
     (p, q) used in expressions: the same URI can be bound to other prefixes / the default."""
     info = DocInfo()
@@ -105,7 +105,7 @@ def gen_tree(r, size=30, ns=True, ids=True, ws=True, comments=True, astral=False
             attrs.append((aq, v))
         if ns and r.random() < 0.08:
             extra = r.choice([('r', NS_P), ('q', NS_Q), ('u', 'urn:unused')])
-            if extra[0] not in [d[0] for d in decls]:
+            if extra[0] not in [d[0] for d in decls] and extra[0] not in used:
                 decls.append(extra)
                 scope[extra[0]] = extra[1]
         attrs.sort(key=lambda kv: kv[0])     # Xerces keeps attributes sorted by name: keep one order for all trees
@@ -138,6 +138,16 @@ def gen_tree(r, size=30, ns=True, ids=True, ws=True, comments=True, astral=False
             out.append('/>')
             return
         out.append('>')
+        if ws_heavy:
+            # whitespace-only text between, before and after children (what indentation leaves behind)
+            k2 = []
+            for k in kids:
+                if r.random() < 0.6:
+                    k2.append('w')
+                k2.append(k)
+            if r.random() < 0.6:
+                k2.append('w')
+            kids = k2
         for k in kids:
             if k == 'e':
                 if budget[0] > 0:
@@ -195,3 +205,15 @@ def gen_tree(r, size=30, ns=True, ids=True, ws=True, comments=True, astral=False
 
 def expr_namespaces():
     return {'p': NS_P, 'q': NS_Q, 'dflt': NS_D}
+
+
+def gen_doc(r, **kw):
+    """gen_tree, verified with the harness's own parser (a generator slip must not become a verdict)"""
+    for _ in range(8):
+        xml, info = gen_tree(r, **kw)
+        try:
+            refxml.parse(xml)
+            return xml, info
+        except refxml.ParseError:
+            continue
+    return '<doc><a id="i1">1</a><b x="2">t</b></doc>', gen_tree(r, size=1, ns=False)[1]
